@@ -13,7 +13,16 @@ Three independent procedures, none of which shares code or ideas with solvor/hun
   accepted together with an LP-duality certificate that is checked by `verify_certificate` (a dozen lines;
   this, not the search, is what has to be trusted).                             any size
 
-`selftest` cross-validates the three on random matrices; the check module runs it first.
+* `optimum_certified` - ONE side (min or max) of a large matrix (the size ladder, 31 .. 1000+).  Again only the
+  certificate is trusted (`verify_certificate`, exact integers, O(r*c)); the search for it is free to be fast:
+  (a) duals derived from a *hint* matching (the answer of the code under test) by label-correcting shortest
+  paths over the exchange graph - they exist iff that graph has no negative cycle / improving path, i.e. iff
+  the hint is optimal -, (b) otherwise a shortest-augmenting-path search with potentials in integers (the same
+  family of algorithm as the code under test, hence NOT trusted - its output goes through verify_certificate).
+  Either way the number returned is a proven optimum; the hint can change the time it takes, never the value.
+* `choice_matters` - exact O(r*c) test whether two matchings of different total exist.
+
+`selftest` cross-validates all of them on random matrices; the check module runs it first.
 """
 from __future__ import annotations
 
@@ -292,6 +301,150 @@ def minmax_certified(K):
     return lo, hi
 
 
+# ------------------------------------------------------------------ 4. large matrices: one certified side
+def duals_from_matching(K, match):
+    """K: r x c with r <= c; match[i] = column of row i (complete, injective).  Column duals v with v <= 0,
+    v[j] == 0 on free columns and  v[j] - v[match[i]] <= K[i][j] - K[i][match[i]]  for all i, j  exist iff the
+    matching is a minimum one; the largest such v are shortest distances in that system of difference
+    constraints.  Label-correcting search.  Returns (u, v), or None (negative cycle / improving path, or gave up).
+    NOT trusted: the caller hands the result to verify_certificate."""
+    r, c = dims(K)
+    match_col = [-1] * c
+    for i, j in enumerate(match):
+        match_col[j] = i
+    dc = [0] * c
+    pops = [0] * c
+    queue = [j for j in range(c) if match_col[j] != -1]
+    queued = [match_col[j] != -1 for j in range(c)]
+    head = 0
+    limit = c + 2
+    while head < len(queue):
+        j0 = queue[head]
+        head += 1
+        queued[j0] = False
+        pops[j0] += 1
+        if pops[j0] > limit:
+            return None  # negative cycle: a cyclic exchange improves the matching
+        row = K[match_col[j0]]
+        base = dc[j0] - row[j0]
+        for j in range(c):
+            if base + row[j] < dc[j]:
+                if match_col[j] == -1:
+                    return None  # a free column would need a negative dual: an improving alternating path
+                dc[j] = base + row[j]
+                if not queued[j]:
+                    queued[j] = True
+                    queue.append(j)
+        if head > 4096:
+            del queue[:head]
+            head = 0
+    u = [K[i][match[i]] - dc[match[i]] for i in range(r)]
+    return u, dc
+
+
+def _sap_with_certificate(K):
+    """Shortest augmenting paths with row/column potentials, integers, r <= c.  -> (match, u, v).  NOT trusted."""
+    r, c = dims(K)
+    u = [0] * (r + 1)
+    v = [0] * (c + 1)
+    p = [0] * (c + 1)  # p[j]: row (1-based) matched to column j (1-based); column 0 is the artificial start
+    way = [0] * (c + 1)
+    for i in range(1, r + 1):
+        p[0] = i
+        j0 = 0
+        minv = [None] * (c + 1)
+        used = [False] * (c + 1)
+        while True:
+            used[j0] = True
+            i0 = p[j0]
+            row = K[i0 - 1]
+            ui = u[i0]
+            delta = None
+            j1 = -1
+            for j in range(1, c + 1):
+                if used[j]:
+                    continue
+                cur = row[j - 1] - ui - v[j]
+                mj = minv[j]
+                if mj is None or cur < mj:
+                    minv[j] = mj = cur
+                    way[j] = j0
+                if delta is None or mj < delta:
+                    delta = mj
+                    j1 = j
+            for j in range(c + 1):
+                if used[j]:
+                    u[p[j]] += delta
+                    v[j] -= delta
+                elif minv[j] is not None:
+                    minv[j] -= delta
+            j0 = j1
+            if p[j0] == 0:
+                break
+        while j0:
+            j1 = way[j0]
+            p[j0] = p[j1]
+            j0 = j1
+    match = [-1] * r
+    for j in range(1, c + 1):
+        if p[j]:
+            match[p[j] - 1] = j - 1
+    return match, u[1:], v[1:]
+
+
+def optimum_certified(K, sense, hint=None):
+    """(value, how): the minimum (sense "min") or maximum ("max") total over all matchings of K, proven by a
+    verified LP-duality certificate.  hint: optional candidate answer, one entry per row of K (column or -1);
+    an invalid or non-optimal hint is simply not used.  how: "hint" | "search"."""
+    r, c = dims(K)
+    if sense not in ("min", "max"):
+        raise OracleError("sense")
+    W = K if sense == "min" else [[-x for x in row] for row in K]
+    h = None
+    if hint is not None and len(hint) == r and all(isinstance(x, int) and -1 <= x < c for x in hint):
+        if r <= c:
+            h = list(hint)
+        else:
+            h = [-1] * c
+            for i, j in enumerate(hint):
+                if j != -1:
+                    h[j] = i
+    if r > c:
+        W = transpose(W)
+    if h is not None and (any(x == -1 for x in h) or len(set(h)) != len(h)):
+        h = None
+    value = None
+    how = "search"
+    if h is not None:
+        d = duals_from_matching(W, h)
+        if d is not None:
+            try:
+                value = verify_certificate(W, h, d[0], d[1])
+                how = "hint"
+            except OracleError:
+                value = None
+    if value is None:
+        match, u, v = _sap_with_certificate(W)
+        value = verify_certificate(W, match, u, v)
+    return (value if sense == "min" else -value), how
+
+
+def choice_matters(K):
+    """True iff two matchings of K have different totals.  Square: iff K is not of the form a[i] + b[j] (exchange two
+    rows' columns); more columns than rows: iff some row is not constant (move one row to a free column); more rows
+    than columns: iff some column is not constant."""
+    r, c = dims(K)
+    if r == 0 or c == 0:
+        return False
+    if r == c:
+        k00 = K[0][0]
+        r0 = K[0]
+        return any(K[i][j] - K[i][0] - r0[j] + k00 != 0 for i in range(1, r) for j in range(1, c))
+    if r < c:
+        return any(x != row[0] for row in K for x in row)
+    return any(K[i][j] != K[0][j] for i in range(1, r) for j in range(c))
+
+
 # ------------------------------------------------------------------ dispatch / self test
 def which(r, c):
     if n_matchings(r, c) <= ENUM_LIMIT:
@@ -314,6 +467,15 @@ def minmax(K):
     return minmax_certified(K)
 
 
+def _random_matching(rng, r, c):
+    if r <= c:
+        return rng.sample(range(c), r)
+    out = [-1] * r
+    for j, i in enumerate(rng.sample(range(r), c)):
+        out[i] = j
+    return out
+
+
 def selftest(rng, rounds=250):
     """The three procedures must agree wherever more than one applies.  Returns number of comparisons."""
     n = 0
@@ -325,11 +487,41 @@ def selftest(rng, rounds=250):
                 r, c = c, r
         span = rng.choice([1, 2, 5, 40])
         K = [[rng.randint(-span, span) for _ in range(c)] for _ in range(r)]
+        if t % 7 == 3:  # a_i + b_j (plus, half of the time, one disturbed cell): no choice / barely a choice
+            a = [rng.randint(-span, span) for _ in range(r)]
+            b = [rng.randint(-span, span) if r == c else 0 for _ in range(c)]
+            if r > c:
+                a, b = [0] * r, [rng.randint(-span, span) for _ in range(c)]
+            K = [[a[i] + b[j] for j in range(c)] for i in range(r)]
+            if t % 2:
+                K[rng.randrange(r)][rng.randrange(c)] += 1
         answers = {"dp": minmax_dp(K), "certified": minmax_certified(K)}
         if n_matchings(r, c) <= ENUM_LIMIT:
             answers["enum"] = minmax_enum(K)
+        for sense, side in (("min", 0), ("max", 1)):
+            val, how = optimum_certified(K, sense)
+            got = [val]
+            # with hints: a random matching (rarely optimal), and an optimal one recovered by the search
+            hint = _random_matching(rng, r, c)
+            got.append(optimum_certified(K, sense, hint)[0])
+            W = K if sense == "min" else [[-x for x in row] for row in K]
+            m, _, _ = _sap_with_certificate(W if r <= c else transpose(W))
+            if r <= c:
+                opt_hint = m
+            else:
+                opt_hint = [-1] * r
+                for j, i in enumerate(m):
+                    opt_hint[i] = j
+            val2, how2 = optimum_certified(K, sense, opt_hint)
+            if how2 != "hint":
+                raise OracleError(f"an optimal hint was not certified on {K} ({sense})")
+            got.append(val2)
+            if any(x != answers["dp"][side] for x in got):
+                raise OracleError(f"optimum_certified disagrees on {K} ({sense}): {got} vs {answers['dp']}")
         if len(set(answers.values())) != 1:
             raise OracleError(f"oracles disagree on {K}: {answers}")
+        if choice_matters(K) != (answers["dp"][0] != answers["dp"][1]):
+            raise OracleError(f"choice_matters wrong on {K}")
         n += 1
     # the certificate checker must reject a wrong answer
     try:
